@@ -3,7 +3,7 @@ from collections.abc import Iterator
 from xdsl.context import Context
 from xdsl.dialects import arith, builtin, memref, scf
 from xdsl.dialects.memref import DeallocOp
-from xdsl.ir import Block, Operation, OpResult, SSAValue, Use
+from xdsl.ir import Block, BlockArgument, Operation, OpResult, SSAValue, Use
 from xdsl.passes import ModulePass
 from xdsl.rewriter import InsertPoint, Rewriter
 from xdsl.traits import IsTerminator, is_side_effect_free
@@ -34,23 +34,54 @@ def get_view_source(value: SSAValue) -> SSAValue:
     return value
 
 
-def get_view_sources(value: SSAValue) -> list[SSAValue]:
-    """Follow views back to the values they may be a view of: an arith.select of two buffers is either of them."""
+def get_view_sources(value: SSAValue, seen: set[SSAValue] | None = None) -> list[SSAValue]:
+    """
+    Follow views back to the values they may be a view of: an arith.select of two buffers is either of them,
+    the result of an scf.if either of the yielded buffers, a loop-carried buffer its initial value or what the
+    loop body yields.
+    """
+    seen = set() if seen is None else seen
+    if value in seen:
+        return []
+    seen.add(value)
     if isinstance(value, OpResult):
         if is_view_op(value.op):
-            return get_view_sources(value.op.operands[0])
+            return get_view_sources(value.op.operands[0], seen)
         if isinstance(value.op, arith.SelectOp):
-            return [*get_view_sources(value.op.lhs), *get_view_sources(value.op.rhs)]
+            return [*get_view_sources(value.op.lhs, seen), *get_view_sources(value.op.rhs, seen)]
+        if isinstance(value.op, scf.IfOp):
+            yields = [region.block.last_op for region in value.op.regions if region.blocks]
+            return [s for y in yields if y is not None for s in get_view_sources(y.operands[value.index], seen)]
+        if isinstance(value.op, scf.ForOp) and (yield_op := value.op.body.block.last_op) is not None:
+            carried = (value.op.iter_args[value.index], yield_op.operands[value.index])
+            return [s for v in carried for s in get_view_sources(v, seen)]
+    elif isinstance(value, BlockArgument) and value.index > 0:
+        for_op = value.owner.parent_op()
+        if isinstance(for_op, scf.ForOp) and (yield_op := for_op.body.block.last_op) is not None:
+            carried = (for_op.iter_args[value.index - 1], yield_op.operands[value.index - 1])
+            return [s for v in carried for s in get_view_sources(v, seen)]
     return [value]
 
 
-def get_uses_through_views(value: SSAValue) -> Iterator[Use]:
-    """Get all uses of the value, and of all views of the value."""
+def get_uses_through_views(value: SSAValue, seen: set[SSAValue] | None = None) -> Iterator[Use]:
+    """Get all uses of the value, of all views of the value, and of the values it is handed on as by scf.if / scf.for."""
+    seen = set() if seen is None else seen
+    if value in seen:
+        return
+    seen.add(value)
     for use in value.uses:
         yield use
-        if (is_view_op(use.operation) and use.index == 0) or (isinstance(use.operation, arith.SelectOp) and use.index > 0):
-            for result in use.operation.results:
-                yield from get_uses_through_views(result)
+        user = use.operation
+        if (is_view_op(user) and use.index == 0) or (isinstance(user, arith.SelectOp) and use.index > 0):
+            for result in user.results:
+                yield from get_uses_through_views(result, seen)
+        elif isinstance(user, scf.YieldOp) and isinstance(parent := user.parent_op(), scf.IfOp | scf.ForOp):
+            yield from get_uses_through_views(parent.results[use.index], seen)
+            if isinstance(parent, scf.ForOp):
+                yield from get_uses_through_views(parent.body.block.args[use.index + 1], seen)
+        elif isinstance(user, scf.ForOp) and use.index >= 3:
+            yield from get_uses_through_views(user.body.block.args[use.index - 2], seen)
+            yield from get_uses_through_views(user.results[use.index - 3], seen)
 
 
 def is_in_block(op: Operation, block: Block | None) -> bool:
